@@ -69,7 +69,7 @@ COMMON = ["--srcip", "10.9.0.77", "--gwmac", "02:5a:00:00:00:fe", "-a", "{dir}/e
 
 def packet_expect(scan, tgt, chunk_ranges, chunk_probes, delay_ms, has_net=True, rate=None, srcip=None, srcmac=None, dstmac=None):
     return {"kind": "packet", "scan": scan, "target": tgt, "hasNet": has_net, "chunkRanges": chunk_ranges, "chunkProbes": chunk_probes, "delayUs": delay_ms * 1000,
-            "rate": rate or NORATE, "srcip": srcip or SRC, "srcmac": srcmac or MY, "dstmac": dstmac or GW, "dstmacs": []}
+            "rate": rate or NORATE, "srcip": srcip or SRC, "srcmac": srcmac or MY, "dstmac": dstmac or GW, "dstmacs": [], "vpn": False}
 
 
 def scenarios(tier):
@@ -151,6 +151,19 @@ def scenarios(tier):
                "inject": [{"bytes": arp_reply(a(1), m1), "afterProbe": 1, "delayMs": 10}, {"bytes": arp_reply(a(1), m1), "afterProbe": 5, "delayMs": 10},
                           {"bytes": arp_reply(a(2), m2), "afterProbe": 6, "delayMs": 10}, {"bytes": arp_reply(a(1), m1), "afterProbe": 9, "delayMs": 10}],
                "expect": {"kind": "live", "scan": "arp", "target": target(net30, 30), "naddr": 4, "intervalUs": 400000, "minPasses": 3}})
+    # 9e. raw-IP ("VPN") mode: a tun device has no hardware address; probes are datagrams without Ethernet header, replies likewise
+    t = lambda d: [10, 8, 3, d]
+    vsrc = [10, 8, 0, 77]
+    raw = lambda frame: frame[14:]
+    sc.append({"name": "vpn-tcp-fin", "dev": "tun", "args": ["tcp", "fin", "--json", "-p", "80-81", "--srcip", "10.8.0.77", "--exit-delay", "500ms", "10.8.3.0/31"],
+               "inject": [{"bytes": raw(tcp_reply(t(1), 80, 0x14, dst=vsrc)), "afterProbe": 1, "delayMs": 40}, {"bytes": raw(tcp_reply(t(0), 82, 0x14, dst=vsrc)), "afterProbe": 1, "delayMs": 50},
+                          {"bytes": raw(icmp_reply(t(1), 3, 3, dst=vsrc)), "afterProbe": 1, "delayMs": 60}],
+               "expect": dict(packet_expect("tcpfin", target([10, 8, 3, 0], 31, [rng(80, 81)]), [[rng(80, 81)]], [4], 500, srcip=vsrc), vpn=True)})
+    sc.append({"name": "vpn-icmp", "dev": "tun", "args": ["icmp", "--json", "--srcip", "10.8.0.77", "--exit-delay", "500ms", "10.8.3.0/30"],
+               "inject": [{"bytes": raw(icmp_reply(t(2), 0, 0, 57, dst=vsrc)), "afterProbe": 1, "delayMs": 40}, {"bytes": raw(icmp_reply([10, 8, 9, 9], 0, 0, dst=vsrc)), "afterProbe": 1, "delayMs": 50}],
+               "expect": dict(packet_expect("icmp", target([10, 8, 3, 0], 30), [[]], [4], 500, srcip=vsrc), vpn=True)})
+    sc.append({"name": "vpn-udp-own-source", "dev": "tun", "args": ["udp", "--json", "-p", "53", "--exit-delay", "400ms", "10.8.3.2"],
+               "expect": dict(packet_expect("udp", target(t(2), 32, [rng(53, 53)]), [[rng(53, 53)]], [1], 400, srcip=[10, 8, 0, 1]), vpn=True)})
     # 10. targets that are not IPv4 are refused before anything is sent
     for i, t in enumerate(["::1", "::ffff:10.9.3.1/126", "fe80::1/64", "10.9.3.1/33", "10.9.3"]):
         sc.append({"name": "refuse-%d" % i, "args": ["tcp", "syn", "--json", "-p", "80"] + COMMON + ["--exit-delay", "300ms", t], "files": {"empty": ""}, "maxMs": 6000,
